@@ -296,47 +296,181 @@ fn check_law(ctx: &Ctx, b: &mut Batch, r: &mut Sm, spec: &Spec, ops: &Ops, label
             b.count("pair_checks", 1);
         }
     }
-    // sampling: same generator => same bits as sampling the components in order
-    for s in 0..8u64 {
-        let mut r1 = ChaCha8Rng::seed_from_u64(1000 + s);
-        let mut r2 = ChaCha8Rng::seed_from_u64(1000 + s);
-        for _ in 0..4 {
-            b.evaluations += 1;
-            let got = (ops.sample)(&mut r1);
-            let mut want: Result<Vec<f64>, String> = Ok(vec![]);
-            for c in &comps {
-                match c.sample(&mut r2) {
-                    Ok(v) => {
-                        if let Ok(w) = want.as_mut() {
-                            w.extend(v)
-                        }
-                    }
-                    Err(e) => {
-                        want = Err(e);
-                        break;
-                    }
-                }
-            }
-            match (&got, &want) {
-                (Ok(g), Ok(w)) => {
-                    b.count("sample_checks", 1);
-                    if !bits_eq(g, w) {
-                        rep("sample-not-componentwise", format!("compound {g:?} components in order {w:?}"), &[], &[], 0.0);
-                    }
-                }
-                (Err(g), Err(w)) => {
-                    if g != w {
-                        rep("sample-error-differs", format!("{g} vs {w}"), &[], &[], 0.0);
-                    }
-                    break;
-                }
-                _ => {
-                    rep("sample-outcome-differs", format!("{got:?} vs {want:?}"), &[], &[], 0.0);
-                    break;
+    // sampling acts component by component. The strong form is decidable bit for bit: with the
+    // same generator the compound sample equals the components' own samples drawn in *some*
+    // fixed order (the property does not say which). Where no order reproduces the bits (a
+    // legitimate implementation may fork a generator per component) the weaker, statistical
+    // form is judged instead: every component of the compound sample lies in its component's
+    // bounds and its marginal distribution is that of the component's own sampler.
+    let widths: Vec<usize> = spec.comps.iter().map(|c| c.kind.width()).collect();
+    // which components can fail to sample (unbounded dimension, overflowing width)?
+    let mut may_err: Vec<String> = vec![];
+    let mut always_err = false;
+    for c in &comps {
+        let outs: Vec<Result<Vec<f64>, String>> = (0..6u64).map(|k| c.sample(&mut ChaCha8Rng::seed_from_u64(77 + k))).collect();
+        always_err |= outs.iter().all(|o| o.is_err());
+        for o in outs {
+            if let Err(e) = o {
+                if !may_err.contains(&e) {
+                    may_err.push(e);
                 }
             }
         }
     }
+    let perms = permutations(comps.len());
+    let mut alive: Vec<bool> = vec![true; perms.len()];
+    let mut oks = 0;
+    'seeds: for s in 0..8u64 {
+        let mut r1 = ChaCha8Rng::seed_from_u64(1000 + s);
+        let mut rp: Vec<ChaCha8Rng> = perms.iter().map(|_| ChaCha8Rng::seed_from_u64(1000 + s)).collect();
+        for _ in 0..4 {
+            b.evaluations += 1;
+            let got = (ops.sample)(&mut r1);
+            match &got {
+                Err(g) => {
+                    if !may_err.contains(g) {
+                        if may_err.is_empty() {
+                            rep("sample-outcome-differs", format!("compound sampling fails with {g} although every component samples fine"), &[], &[], 0.0);
+                        } else {
+                            rep("sample-error-differs", format!("{g} vs the components' errors {may_err:?}"), &[], &[], 0.0);
+                        }
+                    }
+                    break 'seeds;
+                }
+                Ok(g) => {
+                    if always_err {
+                        rep("sample-outcome-differs", format!("compound sampling succeeds ({g:?}) although a component cannot be sampled ({may_err:?})"), &[], &[], 0.0);
+                        break 'seeds;
+                    }
+                    oks += 1;
+                    for (pi, p) in perms.iter().enumerate() {
+                        if !alive[pi] {
+                            continue;
+                        }
+                        let mut want = vec![0.0; g.len()];
+                        let mut ok = true;
+                        for &ci in p {
+                            match comps[ci].sample(&mut rp[pi]) {
+                                Ok(v) => want[offs[ci]..offs[ci] + widths[ci]].copy_from_slice(&v),
+                                Err(_) => ok = false,
+                            }
+                        }
+                        if !ok || !bits_eq(g, &want) {
+                            alive[pi] = false;
+                        }
+                    }
+                }
+            }
+        }
+    }
+    if oks > 0 {
+        if alive.iter().any(|a| *a) {
+            b.count("sample_checks", oks);
+            b.count("sample_checks_bit_exact", oks);
+        } else {
+            // statistical form
+            const N: usize = 600;
+            let mut rc = ChaCha8Rng::seed_from_u64(31337);
+            let mut got: Vec<Vec<f64>> = vec![];
+            for _ in 0..N {
+                if let Ok(g) = (ops.sample)(&mut rc) {
+                    got.push(g);
+                }
+            }
+            let mut bad: Option<String> = None;
+            if got.len() < N {
+                bad = Some(format!("only {} of {N} compound samples succeeded although the components sample fine", got.len()));
+            }
+            for (ci, c) in comps.iter().enumerate() {
+                if bad.is_some() {
+                    break;
+                }
+                let mut rk = ChaCha8Rng::seed_from_u64(4242 + ci as u64);
+                let own: Vec<Vec<f64>> = (0..N).filter_map(|_| c.sample(&mut rk).ok()).map(|v| canon_sign(&spec.comps[ci].kind, v)).collect();
+                let mine: Vec<Vec<f64>> = got.iter().map(|g| canon_sign(&spec.comps[ci].kind, g[offs[ci]..offs[ci] + widths[ci]].to_vec())).collect();
+                if let Some(g) = got.iter().find(|g| !c.satisfies(&g[offs[ci]..offs[ci] + widths[ci]])) {
+                    bad = Some(format!("component {ci} of the compound sample {g:?} is outside that component's bounds"));
+                    break;
+                }
+                for j in 0..widths[ci] {
+                    let d = ks_two_sample(mine.iter().map(|v| v[j]).collect(), own.iter().map(|v| v[j]).collect());
+                    // two-sample DKW: P(D > eps) <= 2 exp(-eps^2 N) for N = M; eps = 0.19 <=> 1e-9
+                    if d > 0.19 {
+                        bad = Some(format!("coordinate {j} of component {ci}: the marginal of {N} compound samples differs from {N} samples of the component's own sampler (KS distance {d:.3} > 0.19, chance < 1e-9)"));
+                        break;
+                    }
+                }
+            }
+            match bad {
+                Some(detail) => rep("sample-not-componentwise", format!("no order of component draws reproduces the compound sample bit for bit, and {detail}"), &[], &[], 0.0),
+                None => {
+                    b.count("sample_checks", oks);
+                    b.count("sample_checks_statistical", oks);
+                }
+            }
+        }
+    }
+}
+
+/// q and -q are the same rotation: compare marginals on the representative with w >= 0
+fn canon_sign(kind: &CK, mut v: Vec<f64>) -> Vec<f64> {
+    if matches!(kind, CK::So3 { .. }) && (v[3] < 0.0 || (v[3] == 0.0 && v.iter().find(|x| **x != 0.0).is_some_and(|x| *x < 0.0))) {
+        for x in v.iter_mut() {
+            *x = -*x;
+        }
+    }
+    v
+}
+
+fn ks_two_sample(mut a: Vec<f64>, mut b: Vec<f64>) -> f64 {
+    if a.is_empty() || b.is_empty() {
+        return 1.0;
+    }
+    a.sort_by(|x, y| x.total_cmp(y));
+    b.sort_by(|x, y| x.total_cmp(y));
+    let (mut i, mut j, mut d) = (0usize, 0usize, 0.0f64);
+    while i < a.len() || j < b.len() {
+        let x = match (a.get(i), b.get(j)) {
+            (Some(p), Some(q)) => p.min(*q),
+            (Some(p), None) => *p,
+            (None, Some(q)) => *q,
+            _ => break,
+        };
+        while i < a.len() && a[i] <= x {
+            i += 1;
+        }
+        while j < b.len() && b[j] <= x {
+            j += 1;
+        }
+        d = d.max((i as f64 / a.len() as f64 - j as f64 / b.len() as f64).abs());
+    }
+    d
+}
+
+fn permutations(n: usize) -> Vec<Vec<usize>> {
+    fn rec(cur: &mut Vec<usize>, used: &mut Vec<bool>, out: &mut Vec<Vec<usize>>) {
+        if cur.len() == used.len() {
+            out.push(cur.clone());
+            return;
+        }
+        for i in 0..used.len() {
+            if !used[i] {
+                used[i] = true;
+                cur.push(i);
+                rec(cur, used, out);
+                cur.pop();
+                used[i] = false;
+            }
+        }
+    }
+    let mut out = vec![];
+    if n <= 4 {
+        rec(&mut vec![], &mut vec![false; n], &mut out);
+    } else {
+        out.push((0..n).collect());
+        out.push((0..n).rev().collect());
+    }
+    out
 }
 
 fn check_layout(ctx: &Ctx, spec: &Spec, seed: u64, n_states: usize) {
